@@ -101,7 +101,8 @@ def number_units(kind, units, start=1):
                            "rows": [[["s", nxt()] if c else None for c in row] for row in u]})
         return {"kind": "book", "sheets": sheets}
     if kind == "pages":
-        return {"kind": "pages", "pages": [[[nxt() for _ in range(cnt)] for cnt in pg] for pg in units]}
+        return {"kind": "pages", "pages": ["gap" if list(pg) == [99] else [[nxt() for _ in range(cnt)] for cnt in pg]
+                                           for pg in units]}
     raise ValueError(kind)
 
 
@@ -113,7 +114,7 @@ def normalize(doc):
     """Universal form handed to Doc.tla: units with blocks / notes / name, header, footer."""
     k = doc.get("kind", "flow")
     if k == "flow":
-        return {"units": [{"blocks": doc["blocks"], "notes": [], "name": 0}],
+        return {"units": [{"blocks": doc["blocks"], "notes": [], "name": 0, "gap": 0}],
                 "header": doc.get("header") or [], "footer": doc.get("footer") or []}
     if k == "deck":
         units = []
@@ -126,16 +127,17 @@ def normalize(doc):
                     blocks.extend(["p", p] for p in sh[1])
                 elif sh[0] == "tbl":
                     blocks.append(["tbl", [[[["p", p] for p in cell] for cell in row] for row in sh[1]]])
-            units.append({"blocks": blocks, "notes": s.get("notes") or [], "name": 0})
+            units.append({"blocks": blocks, "notes": s.get("notes") or [], "name": 0, "gap": 0})
         return {"units": units, "header": [], "footer": []}
     if k == "book":
         units = []
         for sh in doc["sheets"]:
             rows = [[[["p", [["r", c[1]]]]] if c and c[0] == "s" else [] for c in row] for row in sh["rows"]]
-            units.append({"blocks": [["tbl", rows]] if rows else [], "notes": [], "name": sh.get("name_id", 0)})
+            units.append({"blocks": [["tbl", rows]] if rows else [], "notes": [], "name": sh.get("name_id", 0), "gap": 0})
         return {"units": units, "header": [], "footer": []}
     if k == "pages":
-        return {"units": [{"blocks": [["p", [["r", i] for i in ln]] for ln in pg], "notes": [], "name": 0}
+        return {"units": [{"blocks": [["p", [["r", i] for i in ln]] for ln in pg] if pg != "gap" else [], "notes": [],
+                           "name": 0, "gap": 1 if pg == "gap" else 0}
                           for pg in doc["pages"]], "header": [], "footer": []}
     raise ValueError(k)
 
@@ -191,8 +193,8 @@ def render(doc, fmt) -> bytes:
             return misc.write_rtf({"pages": [[["p", [["r", i] for i in ln]] for ln in pg] for pg in doc["pages"]]})
         if fmt == "epub":
             # the package file sits at the root, one or two directories deep (chosen by the document's shape)
-            depth = ("", "OEBPS", "EPUB/package")[sum(len(pg) for pg in doc["pages"]) % 3]
-            return web.write_epub({"chapters": [{"blocks": [["p", [["r", i] for i in ln]] for ln in pg]}
+            depth = ("", "OEBPS", "EPUB/package")[sum(len(pg) for pg in doc["pages"] if pg != "gap") % 3]
+            return web.write_epub({"chapters": ["gap" if pg == "gap" else {"blocks": [["p", [["r", i] for i in ln]] for ln in pg]}
                                                 for pg in doc["pages"]], "props": doc.get("props")}, opf_dir=depth)
         return misc.write_plain([ln for pg in doc["pages"] for ln in pg], fmt)
     raise ValueError((k, fmt))
